@@ -5,6 +5,7 @@ package c13
 
 import (
 	"encoding/json"
+	"errors"
 	"fmt"
 	"sort"
 	"strconv"
@@ -39,6 +40,12 @@ type Cfg struct {
 	// same duration follow. No request was slow under the rule in force: the breaker stays closed.
 	// [limit before ms, limit after ms, requests per half, duration ms, per-resource load (0/1)]
 	Verdicts []int64 `json:"verdicts,omitempty"`
+	// Recycle: a scripted scenario on the outlier module (timers and the recycler worker run under the simulator's
+	// timer queue). A node is ejected and scheduled for recycling under a rule with a short recycle interval; the
+	// rule is replaced by the same rule with a long one (or cleared and loaded again). If the node is still ejected
+	// after the load, it is still ejected when the interval of the REPLACED rule has passed.
+	// [interval before s, interval after s, a request between the load and the old deadline (0/1), how: 0 LoadRules, 1 LoadRuleOfResource, 2 ClearRules+LoadRules]
+	Recycle []int64 `json:"recycle,omitempty"`
 }
 
 const nRes = 3
@@ -52,7 +59,7 @@ func (P) Engine() string { return "E1" }
 
 func (P) Describe() harness.Description {
 	return harness.Description{
-		MustHit: []string{"rule_replaced_inside_its_window_by_another_threshold", "per_resource_load_with_a_rule_of_another_resource", "outlier_valid_and_invalid_rule_for_one_resource", "element_replaced_in_loaded_slice_and_reloaded", "invalid_rule_in_load", "nil_rule_in_load", "identical_reload", "probe_blocked_by_enforced_rule", "per_resource_load"},
+		MustHit: []string{"rule_replaced_inside_its_window_by_another_threshold", "per_resource_load_with_a_rule_of_another_resource", "outlier_valid_and_invalid_rule_for_one_resource", "element_replaced_in_loaded_slice_and_reloaded", "invalid_rule_in_load", "nil_rule_in_load", "identical_reload", "probe_blocked_by_enforced_rule", "per_resource_load", "outlier_rule_replaced_with_a_recycle_timer_armed"},
 		Level:   "exploration",
 		Rule: "case = (table of 6-24 rule specifications over the six modules: valid never-blocking, valid always-blocking, invalid in exactly one field-wise way (built so that they would block a probe if enforced), nil elements; 5-30 operations: LoadRules, LoadRulesOfResource, ClearRules, ClearRulesOfResource, identical reload with freshly allocated objects, probe). " +
 			"After every call: no panic escaped; the getters equal the rule-set model (per resource, in order); the enforcement accessors (traffic controllers / breakers / enforced outlier rule) carry exactly the model's rules; probe traffic on every resource is blocked by exactly the first module that holds an enforced blocking rule and otherwise passes; an identical reload reports 'unchanged'. " +
@@ -89,6 +96,9 @@ func (P) Gen(rng *sim.Rng, tier string) *harness.Case {
 	if len(cfg.Budget) == 0 && rng.Chance(0.03) {
 		d := int64(rng.Range(20, 60))
 		cfg.Verdicts = []int64{int64(rng.Range(1, int(d)-1)), d + int64(rng.Range(0, 500)), int64(rng.Range(2, 10)), d, int64(rng.Intn(2))}
+	}
+	if len(cfg.Budget) == 0 && len(cfg.Verdicts) == 0 && rng.Chance(0.02) {
+		cfg.Recycle = []int64{int64(rng.Range(1, 5)), int64([]int{30, 600, 3600}[rng.Intn(3)]), int64(rng.Intn(2)), int64(rng.Intn(3))}
 	}
 	n := rng.Range(6, 24)
 	for i := 0; i < n; i++ {
@@ -423,6 +433,10 @@ func (P) Exec(c *harness.Case) *harness.Outcome {
 	}
 	if len(cfg.Verdicts) == 5 {
 		execVerdicts(&cfg, o, env)
+		return o
+	}
+	if len(cfg.Recycle) == 4 {
+		execRecycle(&cfg, o, env)
 		return o
 	}
 	model := make([]rset, rs.NumModules)
@@ -1048,6 +1062,115 @@ func execVerdicts(cfg *Cfg, o *harness.Outcome, env *harness.Env) {
 	o.Probe("breaker_limit_raised_inside_its_window")
 	if rej != 0 {
 		o.Fail("C13.replaced-rule-still-decides", 0, "slow-request-ratio breaker (ratio 0.5, minimum %d requests, window 10 s) with a limit of %d ms served %d requests of %d ms; it was replaced by a rule with a limit of %d ms (getter reports %d) and %d more requests of %d ms followed, none of them slow under the rule in force: %d of them were rejected - the breaker opened on the verdicts the replaced rule had given", 2*n, a, n, d, b, limitInForce(resName), n+1, d, rej)
+	}
+}
+
+// execRecycle: see Cfg.Recycle.
+func execRecycle(cfg *Cfg, o *harness.Outcome, env *harness.Env) {
+	a, b, between, how := cfg.Recycle[0], cfg.Recycle[1], cfg.Recycle[2] == 1, cfg.Recycle[3]
+	if a <= 0 || a > 10 || b <= a+1 || b > 100000 || how < 0 || how > 2 {
+		return
+	}
+	const resName, bad, good = "res-0", "10.0.0.1:80", "10.0.0.2:80"
+	tq := &sim.TimerQ{Clk: env.Clock, Pick: func(n int) int { return 0 }}
+	sim.Timers = tq
+	defer func() { sim.Timers = nil }()
+	drain := func() {
+		for outlier.VerifDrainRecycler()+outlier.VerifDrainRetryer() != 0 {
+		}
+	}
+	sc := sentinel.BuildDefaultSlotChain()
+	sc.AddRuleCheckSlot(outlier.DefaultSlot)
+	sc.AddStatSlot(outlier.DefaultMetricStatSlot)
+	mk := func(recycleS int64) *outlier.Rule {
+		// ejected for an hour after one error; every node may be ejected; passive recovery only
+		return &outlier.Rule{Rule: &cb.Rule{Id: "recycle", Resource: resName, Strategy: cb.ErrorCount, RetryTimeoutMs: 3600000, MinRequestAmount: 1, StatIntervalMs: 10000, Threshold: 1},
+			MaxEjectionPercent: 1, RecycleIntervalS: uint32(recycleS)}
+	}
+	load := func(recycleS int64, how int64) {
+		harness.Call(o, "C13.load-panicked", 0, func() {
+			switch how {
+			case 1:
+				_, _ = outlier.LoadRuleOfResource(resName, mk(recycleS))
+			case 2:
+				_ = outlier.ClearRules()
+				fallthrough
+			default:
+				_, _ = outlier.LoadRules([]*outlier.Rule{mk(recycleS)})
+			}
+		})
+	}
+	// request: one request served by node addr; returns the nodes reported for filtering on entry
+	request := func(addr string, fail bool) (filter []string) {
+		harness.Call(o, "C13.probe-panicked", 0, func() {
+			e, _ := sentinel.Entry(resName, sentinel.WithSlotChain(sc))
+			if e == nil {
+				return
+			}
+			filter = append(filter, e.Context().FilterNodes()...)
+			sentinel.TraceCallee(e, addr)
+			if fail {
+				sentinel.TraceError(e, errors.New("backend failure"))
+			}
+			env.Clock.AdvanceMs(1)
+			e.Exit()
+			drain()
+		})
+		return
+	}
+	has := func(l []string, x string) bool {
+		for _, v := range l {
+			if v == x {
+				return true
+			}
+		}
+		return false
+	}
+	harness.Call(o, "C13.load-panicked", 0, outlier.VerifResetWorkers)
+	defer func() {
+		harness.Call(o, "C13.load-panicked", 0, drain)
+		_ = outlier.ClearRules()
+	}()
+	load(a, 0)
+	request(good, false)
+	request(bad, true)
+	request(bad, true)
+	// this request finds the node ejected: it is handed to the recycler, which arms the timer of the rule in force
+	if f := request(good, false); o.Failed() || !has(f, bad) {
+		return
+	}
+	t0 := env.Clock.NowMs()
+	load(b, how)
+	if o.Failed() {
+		return
+	}
+	// is the node still ejected under the new rule? (a load that starts the nodes afresh is as good as one that
+	// keeps their state: what must not happen is that the node is ejected after the load and back in the pool when
+	// the interval of the replaced rule is over)
+	ejectedAfterLoad := false
+	if between {
+		ejectedAfterLoad = has(request(good, false), bad)
+	} else {
+		harness.Call(o, "C13.probe-panicked", 0, func() {
+			if br := outlier.VerifNodeBreakers(resName)[bad]; br != nil {
+				ejectedAfterLoad = br.CurrentState() == cb.Open
+			}
+		})
+	}
+	if o.Failed() {
+		return
+	}
+	harness.Call(o, "C13.probe-panicked", 0, func() { tq.AdvanceMs(uint64(a)*1000+500, drain) })
+	o.SimMs += uint64(a)*1000 + 500
+	f := request(good, false)
+	if o.Failed() {
+		return
+	}
+	o.Nontrivial = true
+	o.Probe("outlier_rule_replaced_with_a_recycle_timer_armed")
+	if ejectedAfterLoad && !has(f, bad) {
+		o.Fail("C13.replaced-rule-still-decides", 0, "outlier rule (ejected for 1 h after one error, RecycleIntervalS %d): node %s failed and was ejected and scheduled for recycling; the rule was replaced (how=%d: 0 LoadRules, 1 LoadRuleOfResource, 2 ClearRules+LoadRules) by the same rule with RecycleIntervalS %d, and the node was still ejected after the load; %d ms after the ejection, with no request to the node in between, it is back in the pool (not reported for filtering) - the recycle timer of the replaced rule removed the node breaker of the rule in force",
+			a, bad, how, b, env.Clock.NowMs()-t0)
 	}
 }
 
